@@ -4,6 +4,9 @@ from .. import gen
 
 ID = "C08"
 LEAN_TARGETS = ["Cider.Props.C08"]
+# source-text tie (translated on every run by tools/pyexpr2lean.py); skipped when the function no longer fits the translator
+OPTIONAL_TARGETS = ["Cider.Props.C08Src"]
+OPTIONAL_THEOREMS = {"Cider.Props.C08Src": ['Cider.C08Src.phasePlotRegion_eq']}
 P = "Cider.C08."
 THEOREMS = [P + t for t in ("regionCode_xy", "regionDef_xy", "region_total_and_spec", "region_in_1_5", "region_spec_cases", "region_4_5",
                             "region_factors_through_counts")]
